@@ -69,6 +69,8 @@ func c04Run(f []string) (res string) {
 		return fmt.Sprintf("ok errs=%d done=%d t=%s r=%s", errs, d, HexList(atReturn), HexList(held))
 	}
 	switch f[0] {
+	case "big", "nocb":
+		return c04RunBig(f)
 	case "dropcr":
 		in := append([]byte{}, UnHex(f[1])...)
 		keep := append([]byte{}, in...)
@@ -216,6 +218,7 @@ func c04Gen(r *Rand, tier string) []string {
 		out = append(out, fmt.Sprintf("%s %d %s %s", kind, size, Hex(data), sc))
 	}
 	out = append(out, c04GenMore(r, tier)...)
+	out = append(out, c04GenBig(r, tier)...)
 	if tier == "thorough" {
 		// exhaustive: all strings over {a,\n,\r} up to length 6 x buffer sizes 1..4 x one-byte reads / all-at-once
 		var rec func(cur []byte)
@@ -363,7 +366,13 @@ func c04Stats(cases []string) map[string]int {
 		switch f[0] {
 		case "dropcr", "maxi":
 			continue
-		case "rl":
+		case "big":
+			st["big."+f[1]]++
+			if strings.Contains(f[4], ":f") {
+				st["script.fail"]++
+			}
+			continue
+		case "rl", "nocb":
 			f = f[1:]
 		case "sync":
 			f = []string{"sync", "131072", f[2], f[3]}
